@@ -1,13 +1,6 @@
 //! Verification harness for pest: drives the real implementation for the TLA+ conformance
 //! checks of /verif (see DESIGN.md).  `vh <subcommand> [--key value]...`
-mod c01;
-mod c05;
-mod c06;
-mod gen;
-mod peg;
-mod stack;
-mod sweep;
-mod util;
+use vh::*;
 
 /// Runs `f` on a thread with a 2 GB stack (deeply recursive grammars must not abort the harness).
 fn big_stack(f: impl FnOnce() + Send + 'static) {
@@ -31,6 +24,7 @@ fn main() {
         "c15-emit" => big_stack(move || sweep::c15(&rest2)),
         "c06-replay" => big_stack(move || c06::replay(&rest2)),
         "c06-emit" => big_stack(move || c06::emit(&rest2)),
+        "grammar-list" => big_stack(move || c01::grammar_list(&rest2)),
         "c01-replay" => big_stack(move || c01::replay(&rest2)),
         "stack-replay" => stack::replay(rest),
         "stack-emit" => stack::emit(rest),
